@@ -11,3 +11,10 @@ MUTANTS = [
 
 NEUTRALS = [{'name': 'velocity via local alias', 'file': 'partitura/io/exportmidi.py', 'old': '                Message("note_on", note=note.midi_pitch, velocity=velocity)', 'new': '                Message("note_on", velocity=velocity, note=note.midi_pitch)'},
     {'name': 'np.rint instead of np.round', 'file': 'partitura/io/exportmidi.py', 'old': '            return int(np.round(ppq * (qm(t) - ftp)))', 'new': '            return int(np.rint(ppq * (qm(t) - ftp)))'}]
+
+# changes made by sub-agents that were given only the property text (see /verif/seeded/<id>/): each must stay reported
+SEEDED = [
+    {'name': 'seeded change C04-r2', 'seed': 'C04-r2', 'expect': '|F6-modes|'},
+    {'name': 'seeded change C04', 'seed': 'C04', 'expect': '|ORDER-midi|'},
+]
+MUTANTS += SEEDED
